@@ -99,6 +99,62 @@ theorem thrF64_le (n : Nat) : thrF64 n ≤ n := by
   apply thrWith_le
   decide
 
+/-! ### lower error bound and the 70 % characterisation -/
+
+theorem rne_err_lo (x d : Nat) (hd : 0 < d) : 2 * x ≤ 2 * (rne x d * d) + d := by
+  unfold rne
+  simp only []
+  have h := Nat.div_add_mod x d
+  have hm := Nat.mod_lt x hd
+  generalize x / d = q at *
+  generalize x % d = r at *
+  have e1 : (q + 1) * d = d * q + d := by rw [Nat.add_mul, Nat.mul_comm]; simp
+  have e2 : q * d = d * q := Nat.mul_comm _ _
+  by_cases h1 : 2 * r < d
+  · rw [if_pos h1, e2]; omega
+  · rw [if_neg h1]
+    by_cases h2 : d < 2 * r
+    · rw [if_pos h2, e1]; omega
+    · rw [if_neg h2]
+      by_cases h3 : q % 2 = 0
+      · rw [if_pos h3, e2]; omega
+      · rw [if_neg h3, e1]; omega
+
+theorem rnd53_err_lo (N : Nat) : 2 ^ 53 * N ≤ 2 ^ 53 * rnd53 N + N := by
+  unfold rnd53
+  by_cases h : N < 2 ^ 53
+  · rw [if_pos h]; omega
+  · rw [if_neg h]
+    simp only []
+    have hN : N ≠ 0 := by intro h0; rw [h0] at h; exact h (by decide)
+    have hlog : 2 ^ Nat.log2 N ≤ N := Nat.log2_self_le hN
+    have h53 : 53 ≤ Nat.log2 N := by
+      have : 2 ^ 53 ≤ N := Nat.le_of_not_lt h
+      exact (Nat.le_log2 hN).2 this
+    generalize hs : Nat.log2 N - 52 = s
+    have hl : Nat.log2 N = 52 + s := by omega
+    rw [hl, Nat.pow_add] at hlog
+    have hd : 0 < 2 ^ s := Nat.two_pow_pos s
+    have he := rne_err_lo N (2 ^ s) hd
+    generalize rne N (2 ^ s) * 2 ^ s = R at *
+    generalize 2 ^ s = D at *
+    omega
+
+theorem rnd53_small (N : Nat) (h : N < 2 ^ 53) : rnd53 N = N := by
+  unfold rnd53; rw [if_pos h]
+
+/-- With the binary64 constant of `1.0 - 0.3` the threshold is 70 % of `n` rounded to an integer
+at distance at most one half (for every count below 2^49). -/
+theorem thrWith_seventy (n : Nat) (h : n < 2 ^ 49) :
+    7 * n ≤ 10 * thrWith (12610078956637388, 54) n + 5 ∧
+    10 * thrWith (12610078956637388, 54) n ≤ 7 * n + 5 := by
+  unfold thrWith
+  simp only []
+  rw [rnd53_small n (by omega)]
+  have hu := rnd53_err (n * 12610078956637388)
+  have hl := rnd53_err_lo (n * 12610078956637388)
+  generalize rnd53 (n * 12610078956637388) = R at *
+  omega
 /-! ## The single pass -/
 
 variable {α : Type} [DecidableEq α]
